@@ -49,7 +49,7 @@ def scenario(rng, n_sleepers, horizon):
             name = f"s{i}"
             await asyncio.sleep(rng.choice([0, 0, 0.05, 0.3, rng.randrange(0, 50) / 10]))
             while loop.time() < horizon:
-                d = rng.choice([0.1, 0.5, 1, 2, 5, 30, 60, 120, rng.randrange(1, 400) / 10])
+                d = rng.choice([0.1, 0.5, 1, 2, 5, 30, 60, 120, rng.randrange(1, 400) / 10, 0, 0.0, 0.001])
                 ev.append({"k": "sleep", "s": name, "d": _ms(d), "t": _ms(loop.time())})
                 try:
                     await cfg.config_sleep(d)
@@ -57,6 +57,8 @@ def scenario(rng, n_sleepers, horizon):
                     ev.append({"k": "cancel", "s": name, "t": _ms(loop.time())})
                     raise
                 ev.append({"k": "wake", "s": name, "t": _ms(loop.time())})
+                if d < 0.01:
+                    await asyncio.sleep(0.2)          # (a zero delay is legal; do not spin on it)
                 if rng.random() < 0.3:
                     await asyncio.sleep(rng.choice([0.05, 0.2, 1.0]))
 
